@@ -217,7 +217,9 @@ def run_consumer(sim, op, arg, sel, tag, extra=None):
                  **{extra.get('criterion', 'cpd'): extra.get('threshold', 3.7)})
     elif op == 'plot':
         r = call(plot, arg, select_format=sel, sed_type=extra.get('sed_type', 'interp'), show_convolved=bool(extra.get('show_convolved')),
-                 plot_mode=extra.get('plot_mode', 'A'), plot_max=extra.get('plot_max'), memmap=extra.get('memmap', True))
+                 plot_mode=extra.get('plot_mode', 'A'), plot_max=extra.get('plot_max'), memmap=extra.get('memmap', True),
+                 sources=extra.get('plot_sources'), plot_name=extra.get('plot_name', True), plot_info=extra.get('plot_info', True),
+                 **({'x_mode': 'M', 'x_range': (0.05, 2000.), 'y_mode': 'M', 'y_range': (1e-16, 1e-6)} if extra.get('manual_axes') else {}))
     else:
         raise env.HarnessError('consumer %r' % op)
     if r[0] == 'exc':
